@@ -211,6 +211,10 @@ def run(chk):
     tabs = c01.read_type_tables(chk, tus[0], it, vts, 'R04.1')
     check_calls(chk, it, tabs, 4 if chk.tier == 'quick' else 8)
     check_index_spaces(chk, tus, it, tabs)
+    # identifiers are spelled by two families of emitters (FILE* for declarations/tables/exports, string builder for call sites):
+    # they must agree for every name, otherwise a call reaches another (or no) C function
+    from . import c09
+    c09.check_twins(chk, tus, rule='R04.2')
     chk.floor('R04.1', 40)
     chk.floor('R04.2', 12)
     chk.floor('R04.3', 20)
